@@ -26,7 +26,7 @@ func init() {
 		Workloads: []core.Workload{
 			{Name: "rr", Variant: "plain", N: core.Tiered(5*160, 5*6000), Run: c10Case},
 		},
-		RequireTags: func(string) []string { return []string{"GR4J:closure", "Sacramento:chained", "Sacramento:whole-lagged", "Sacramento:small-lztwm-stress", "Sacramento:small-suppl-store-stress"} },
+		RequireTags: func(string) []string { return []string{"GR4J:closure", "Sacramento:chained", "Sacramento:whole-lagged", "Sacramento:small-lztwm-stress", "Sacramento:small-suppl-store-stress", "Sacramento:small-tension-stores-stress"} },
 	})
 }
 
@@ -118,8 +118,28 @@ func c10Case(c *core.Ctx) {
 			}
 		}
 	}
+	// third Sacramento stress regime: BOTH tension stores only a few mm deep, light rain, and hot spells whose demand
+	// left over after the upper zone exceeds what the two stores hold together
+	stress3 := false
+	if model == "Sacramento" && !stress && !stress2 && c.R.Bool(0.3) {
+		stress3 = true
+		ps[paramIndex(desc, "uztwm")][0] = c.R.Range(5, 12)
+		ps[paramIndex(desc, "lztwm")][0] = c.R.Range(5, 12)
+		ps[paramIndex(desc, "uzfwm")][0] = c.R.Range(5, 30)
+		for t := 0; t < T; t++ {
+			in[0][t], in[1][t] = 0, c.R.Range(0, 6)
+			if c.R.Bool(0.35) {
+				in[0][t] = c.R.Range(0, 8)
+			}
+		}
+		for t := c.R.Intn(6); t+2 < T; t += c.R.IntRange(4, 12) {
+			in[0][t], in[1][t] = c.R.Range(3, 15), c.R.Range(0, 3) // a wetting day
+			in[0][t+1], in[1][t+1] = 0, c.R.Range(5, 15)          // a warm dry day
+			in[0][t+2], in[1][t+2] = 0, c.R.Range(15, 40)         // a very hot day
+		}
+	}
 	// extreme storm now and then
-	if c.R.Bool(0.3) {
+	if c.R.Bool(0.3) && !stress3 {
 		in[0][c.R.Intn(T)] = c.R.Range(200, 500)
 	}
 	hot := c.R.Bool(0.4)
@@ -146,11 +166,14 @@ func c10Case(c *core.Ctx) {
 	if stress2 {
 		c.Tag("Sacramento:small-suppl-store-stress")
 	}
+	if stress3 {
+		c.Tag("Sacramento:small-tension-stores-stress")
+	}
 	maxRain := 0.0
 	for _, v := range in[0] {
 		maxRain = math.Max(maxRain, v)
 	}
-	c.Class(fmt.Sprintf("%s/hot%v/chained%v/closure%v/storm%v/stress%v/T%d", model, hot, chained, closure, maxRain >= 200, stress || stress2, T/100))
+	c.Class(fmt.Sprintf("%s/hot%v/chained%v/closure%v/storm%v/stress%v/T%d", model, hot, chained, closure, maxRain >= 200, stress || stress2 || stress3, T/100))
 	// initial states
 	if hot {
 		wo, err := Execute(warm)
